@@ -473,7 +473,9 @@ def config_file_precedence(ctx, rule):
         from ..model import AnalysisError
         raise AnalysisError('Config.__init__ not found')
     verdicts = []
-    for lp in ast.walk(init.node):
+    # the search may live in __init__ or in a helper of the class it was moved to
+    holder = ast.Module(body=[m.node for m in ci.methods.values()], type_ignores=[])
+    for lp in ast.walk(holder):
         if isinstance(lp, ast.For) and 'is_file' in ast.unparse(lp):
             hits = [i for i in ast.walk(lp) if isinstance(i, ast.If) and 'is_file' in ast.unparse(i.test)]
             for h in hits:
@@ -487,11 +489,11 @@ def config_file_precedence(ctx, rule):
                 verdicts.append((lp.lineno, stops, 'the loop over the candidates stops at the first file found' if stops else
                                  'the loop over the candidates goes on after a file was found: the last one wins'))
     found_lists = set()
-    for st in ast.walk(init.node):
+    for st in ast.walk(holder):
         if isinstance(st, ast.Assign) and len(st.targets) == 1 and isinstance(st.targets[0], ast.Name) and \
                 isinstance(st.value, (ast.ListComp, ast.Call)) and 'is_file' in ast.unparse(st.value):
             found_lists.add(st.targets[0].id)
-    for x in ast.walk(init.node):
+    for x in ast.walk(holder):
         if isinstance(x, ast.Subscript) and isinstance(x.value, ast.Name) and x.value.id in found_lists:
             idx = ast.unparse(x.slice)
             verdicts.append((x.lineno, idx == '0', f"element [{idx}] of the list of files found"))
